@@ -727,15 +727,18 @@ class C13(Spec):
                  "correspondence with the real generator.h / iterator.h")
     level_text = ("Lean 4 theorems over an executable model of generator::promise_type (fields _caller/_internal, _arg, _ret, _exp, _done, "
                   "_block, _awaiting), the body as a script interpreter, and every access style as consumer operations (sync access split at "
-                  "its blocking point so completions by another thread interleave): sequence/end/exception position, argument delivery, "
-                  "no lost wake-up, locals destroyed once - for every script and every operation list; the model is tied to the headers by "
-                  "running both on generated (script, operation list) pairs and diffing every line; property oracles run on the "
-                  "implementation trace")
-    level_note = ("trusted: Lean kernel (axioms propext/Classical.choice/Quot.sound at most), the hand-written model "
-                  "lean/CoclsModel/Generator.lean, the differential harness (sampling), the compiler's coroutine frame semantics, "
-                  "future/promise resolution (C01) and the awaiter chain (C03). Thread schedules: the theorems cover every interleaving of "
-                  "consumer steps and completions (an op list); the real code is exercised with completions on the consumer thread, on a "
-                  "joined second thread, and on a helper thread racing with _block.wait().")
+                  "its blocking point so completions by another thread interleave; co_await, subscribe(callback) incl. re-entrant re-arming, "
+                  "future, iterators): sequence/end/exception position, argument delivery, no lost wake-up, locals destroyed once - for every "
+                  "script and every operation list; plus a micro-step model of the two-thread hand-over at a co_yield (notify last). The model "
+                  "is tied to the headers by running both on generated (script, operation list) pairs and diffing every line; property oracles "
+                  "run on the implementation trace, including all short baton schedules of a consumer thread vs a completing thread")
+    level_note = ("trusted: Lean kernel (axioms propext/Classical.choice/Quot.sound at most), the hand-written models "
+                  "lean/CoclsModel/Generator.lean and GeneratorHandover.lean, the differential harness (sampling), the compiler's coroutine frame "
+                  "semantics, future/promise resolution (C01) and the awaiter chain (C03). Thread schedules: the theorems cover every "
+                  "interleaving of consumer steps and completions (an op list) and of the micro-steps of the hand-over; the real code is "
+                  "exercised with completions on the consumer thread, on a joined second thread, on a helper thread racing with _block.wait(), "
+                  "and deterministically under the baton scheduler (every interposed atomic operation a scheduling point, all 0/1 schedules up "
+                  "to a length; oracle only, no line-by-line model comparison in that suite).")
     trusted_base = ["hand-written model lean/CoclsModel/Generator.lean tied to generator.h/iterator.h by differential correspondence "
                     "(harness/h_generator.cpp vs lean/Drivers/C13.lean) on generated scripts x access sequences",
                     "C++ coroutine frame semantics (locals destroyed on frame destruction), cocls::future/promise (C01)"]
